@@ -369,6 +369,18 @@ def main(chk, replay=None):
                   4: dict(explicit=False, stmts=[["call", 2, 0, "i", False, False, True, False, Z], ["call", 3, 0, "i", False, False, True, False, Z],
                                                  ["batch", 3, [0, 1], "i", False, False, False, False, Z]], const=3, **{"raise": [0, 0, 0, 0]})}),
     ]
+    corpus += [
+        # depth four, the second level leaves through a non-memoized exception after its own sub-call, the root handles it:
+        # the root's dependency set still covers the leaf
+        dict(fns={1: leaf(), 2: dict(explicit=False, stmts=[["call", 1, 0, "i", False, False, False, False, Z]], const=2, **{"raise": [0, 0, 0, 0]}),
+                  3: dict(explicit=False, stmts=[["call", 2, 0, "i", False, False, False, False, Z]], const=3, **{"raise": [1, 0, 2, 5]}),
+                  4: dict(explicit=False, stmts=[["call", 3, 0, "i", False, False, True, False, Z]], const=4, **{"raise": [0, 0, 0, 0]})}),
+        # a batch inside a function whose elements make calls of their own: an element that has to be computed followed by
+        # elements that are already in the store (all subsets memoized beforehand)
+        dict(fns={1: leaf(), 2: dict(explicit=False, stmts=[["call", 1, 0, "i", False, False, False, False, Z]], const=2, **{"raise": [0, 0, 0, 0]}),
+                  3: dict(explicit=False, stmts=[["batch", 2, [0, 1, 2], "i", False, False, False, False, Z], ["call", 1, 5, "i", False, False, False, False, Z]], const=3,
+                          **{"raise": [0, 0, 0, 0]})}),
+    ]
     concurrent_subcall(chk)
     for fl in (mutable_args_scenario(chk) + typed_args_scenario(chk) + lost_result_scenario(chk))[:3]:
         chk.violation({"what": "provenance (%s): %s" % (fl["scenario"], fl["clause"]), "class": {"clause": fl["clause"], "scenario": fl["scenario"]},
